@@ -40,6 +40,8 @@ def classify_src(o):
             return "full"
         if c.endswith("Position::<'i>::line_of"):
             return "line"
+        if c.endswith("pest::Span::<'i>::as_str") or c.endswith("Span::<'i>::as_str") or c.endswith("Pair::<'i, R>::as_str"):
+            return "fragment"     # the text of the construct alone
     if o.kind == "arg":
         return "param:%d" % o.local
     return None
@@ -82,6 +84,24 @@ def f_coord(F, res):
             pk = {classify_span(f, du, o) for o in span_o}
             key = "%s|parsing::Error{src,span}" % f["path"]
             w = where(f, s["line"])
+            # both are parameters of a constructor helper (`Error::new(message, src, span)`): each call site is a diagnostic of its
+            # own and is judged on its own pair
+            if sk and pk and all(k and k.startswith("param:") for k in sk | pk) and len(sk) == 1 and len(pk) == 1 and f["def_kind"] != "Closure":
+                sites = _call_sites(F, f)
+                if sites:
+                    for g, t in sites:
+                        ks = _site_kinds(F, g, t, int(next(iter(sk))[6:]), "src")
+                        kp = _site_kinds(F, g, t, int(next(iter(pk))[6:]), "span")
+                        key_s = "%s|parsing::Error{src,span} built through %s" % (g.get("owner") or g["path"], f["path"].split("::")[-1])
+                        w_s = where(g, t["line"])
+                        if None in ks or None in kp or not ks or not kp:
+                            res.add([finding("F-COORD", key_s, w_s, "cannot establish the coordinate systems of src (%s) and span (%s)" % (sorted(map(str, ks)), sorted(map(str, kp))))])
+                        elif (ks == {"full"} and kp == {"absolute"}) or (ks == {"line"} and kp == {"linerel"}):
+                            res.add([ok("F-COORD", key_s, w_s, "src = %s, span = %s" % ("/".join(ks), "/".join(kp)))])
+                        else:
+                            res.add([finding("F-COORD", key_s, w_s, "the diagnostic carries %s as source text but a span in %s coordinates: the label can lie outside the text" % (
+                                "/".join(sorted(ks)).replace("line", "a single line").replace("full", "the whole input").replace("fragment", "the text of the construct alone"), "/".join(sorted(kp))))])
+                    continue
             # parameters: resolve through callers when the constructor takes the text as an argument
             sk2, pk2 = set(), set()
             for k in sk:
@@ -102,13 +122,44 @@ def f_coord(F, res):
                 res.add([ok("F-COORD", key, w, "src = one line, span = line-relative")])
             else:
                 res.add([finding("F-COORD", key, w, "the diagnostic carries %s as source text but a span in %s coordinates: the label can lie outside the text" % (
-                    "/".join(sorted(sk2)).replace("line", "a single line").replace("full", "the whole input"), "/".join(sorted(pk2))))])
+                    "/".join(sorted(sk2)).replace("line", "a single line").replace("full", "the whole input").replace("fragment", "the text of the construct alone"), "/".join(sorted(pk2))))])
     res.count("parsing::Error constructions", n)
-    res.floor("parsing::Error constructions", n, 2)
+    res.floor("parsing::Error constructions", n, 1)
 
 
-def _caller_kinds(F, f, argn, what):
-    """kinds of the actual argument at the call sites of f (one level)"""
+def _call_sites(F, f):
+    out = []
+    for g in F.fns.values():
+        if g["crate"] != "tx3_lang" or is_derive(g):
+            continue
+        for bi, t in mir.calls(g):
+            if (t.get("resolved") or t.get("callee")) == f["path"]:
+                out.append((g, t))
+    return out
+
+
+def _site_kinds(F, g, t, argn, what):
+    """kinds of argument `argn` at one call site (parameters of the caller resolved further up)"""
+    if len(t["args"]) < argn:
+        return {None}
+    du = mir.DefUse(g)
+    out = set()
+    for o in mir.provenance(g, du, t["args"][argn - 1]):
+        k = classify_src(o) if what == "src" else classify_span(g, du, o)
+        if k and k.startswith("param:"):
+            if what == "src" and g["path"] == "tx3_lang::parsing::parse_string" and o.local == 1:
+                out.add("full")
+            elif g["def_kind"] != "Closure":
+                out |= _caller_kinds(F, g, int(k[6:]), what, 1)
+            else:
+                out.add(None)
+        else:
+            out.add(k)
+    return out or {None}
+
+
+def _caller_kinds(F, f, argn, what, depth=0):
+    """kinds of the actual argument at the call sites of f (through up to three levels of constructors / helpers)"""
     out = set()
     for g in F.fns.values():
         if g["crate"] != "tx3_lang" or is_derive(g):
@@ -141,9 +192,16 @@ def _caller_kinds(F, f, argn, what):
                                             k = kk
                     elif k and k.startswith("param:") and g["path"] == "tx3_lang::parsing::parse_string" and o.local == 1:
                         k = "full"   # the parser's own input
+                    elif k and k.startswith("param:") and g["def_kind"] != "Closure" and depth < 3:
+                        out |= _caller_kinds(F, g, int(k[6:]), what, depth + 1)
+                        continue
                     out.add(k)
                 else:
-                    out.add(classify_span(g, du, o))
+                    k = classify_span(g, du, o)
+                    if k and k.startswith("param:") and g["def_kind"] != "Closure" and depth < 3:
+                        out |= _caller_kinds(F, g, int(k[6:]), what, depth + 1)
+                        continue
+                    out.add(k)
     return out or {None}
 
 
